@@ -5,9 +5,11 @@
      utils.stronglyConnectedComponents / topologicalSort  utils.py 710-885 -> [scc], [topo_layers]
      Eups.uses, Uses.remember/invert/users               Uses.py    -> [uses_index], [users]
 
-   Executable definitions only.  The model follows the code with the two proposed repairs
-   applied (D15: total sort key inside a layer; D2: Uses.users compares tuples); the pinned
-   behaviour is kept as [sort_layer_pinned] / [users_pinned] for the refutation examples.
+   Executable definitions only.  The model follows the code with three repairs applied (D15:
+   total sort key inside a layer; D2: Uses.users compares tuples; D16: the second walk of
+   getDependentProducts ties a name to a version only when one product of that name is listed, and
+   the topological depth is kept per product); the pinned behaviour is kept as [node_cmp_pinned] /
+   [users_pinned] / [pins_pinned], [relabel_pinned] for the refutation examples.
 
    A product is a [node] = (name, version-or-None, found?).  Declared products have a version and a
    table in the [world]; a dependency that cannot be resolved is listed by the code as the stub
@@ -462,7 +464,7 @@ Definition check_cycles (g0 : graph) : res (list (list node)) := topo_layers tru
 
 (* ---------------------------------------------------------------- getDependentProducts *)
 
-(* Eups.py 3178-3183: tsorted_depth[p.name] = nlevel - i - 1, a later layer overwrites *)
+(* Eups.py: tsorted_depth[p.name] = nlevel - i - 1, a later layer overwrites *)
 Fixpoint depth_by_name (L : list (list node)) (i nlevel : nat) (m : amap nat) : amap nat :=
   match L with
   | [] => m
@@ -470,10 +472,26 @@ Fixpoint depth_by_name (L : list (list node)) (i nlevel : nat) (m : amap nat) : 
                 (fold_left (fun m p => aset (nname p) (nlevel - i - 1) m) l m)
   end.
 
-Definition relabel (td : amap nat) (x : entry) : entry :=
+(* repaired (D16): tsorted_productDepth[p] = nlevel - i - 1, a dict keyed by the Product itself *)
+Fixpoint depth_by_node (L : list (list node)) (i nlevel : nat) (m : list (node * nat)) : list (node * nat) :=
+  match L with
+  | [] => m
+  | l :: r => depth_by_node r (S i) nlevel
+                (fold_left (fun m p => low_set m p (nlevel - i - 1)) l m)
+  end.
+
+(* pinned tree: the depth of the name *)
+Definition relabel_pinned (td : amap nat) (x : entry) : entry :=
   match alookup (nname (enode x)) td with
   | Some d => (enode x, eoptional x, d)
   | None => x
+  end.
+
+(* repaired: the depth of the product when the sort holds that very product, else the depth of its name *)
+Definition relabel (tn : list (node * nat)) (td : amap nat) (x : entry) : entry :=
+  match low_get tn (enode x) with
+  | Some d => (enode x, eoptional x, d)
+  | None => relabel_pinned td x
   end.
 
 Definition entry_cmp (a b : entry) : option comparison :=
@@ -496,11 +514,30 @@ Fixpoint keep_last (l : list entry) : list entry :=
 Definition dedup (l : list entry) : list entry :=
   map (fun x => (enode x, optional_of (enode x) l, edepth x)) (keep_last l).
 
-Definition topo_finish (L : list (list node)) (dp : list entry) : list entry :=
+(* [fx] = true: the code with D16 repaired; false: the pinned tree (no dict of product depths) *)
+Definition topo_finish (fx : bool) (L : list (list node)) (dp : list entry) : list entry :=
   let td := depth_by_name L 0 (S (length L)) [] in
-  dedup (entry_sort (map (relabel td) dp)).
+  let tn := if fx then depth_by_node L 0 (S (length L)) [] else [] in
+  dedup (entry_sort (map (relabel tn td) dp)).
 
-Definition dependent_products_with (cmp : node -> node -> option comparison)
+(* requiredVersions of the second walk.  Pinned tree: every listed name is tied to a listed version,
+   the last mention wins (a python dict built by update from the list) *)
+Definition pins_pinned (dp : list entry) : list (str * option str) :=
+  map (fun x => (nname (enode x), nver (enode x))) dp.
+
+(* repaired (D16): a name is tied to the version listed for it only when one product of that name is
+   listed, and never the name of the top product; a line on any other name keeps what it denotes *)
+Definition sole_of_name (top : node) (dp : list entry) (x : entry) : bool :=
+  negb (str_eqb (nname (enode x)) (nname top)) &&
+  forallb (fun y => implb (str_eqb (nname (enode y)) (nname (enode x))) (node_eqb (enode y) (enode x))) dp.
+
+Definition pins_fixed (top : node) (dp : list entry) : list (str * option str) :=
+  pins_pinned (filter (sole_of_name top dp) dp).
+
+Definition pins_for (fx : bool) (top : node) (dp : list entry) : list (str * option str) :=
+  if fx then pins_fixed top dp else pins_pinned dp.
+
+Definition dependent_products_with (fx : bool) (cmp : node -> node -> option comparison)
            (fuel : nat) (w : world) (top : node) (topological : bool) : res (list entry) :=
   match walk_top fuel w [] top with
   | Err x => Err x
@@ -508,31 +545,35 @@ Definition dependent_products_with (cmp : node -> node -> option comparison)
       let dp := drop_top top l in
       if negb topological then Ok dp
       else
-        let pins := map (fun x => (nname (enode x), nver (enode x))) dp in
-        match walk_top fuel w pins top with
+        match walk_top fuel w (pins_for fx top dp) top with
         | Err x => Err x
         | Ok (_, st) =>
             match topo_layers_with cmp false (pd st) with
             | Err x => Err x
-            | Ok L => Ok (topo_finish L dp)
+            | Ok L => Ok (topo_finish fx L dp)
             end
         end
   end.
 
-Definition dependent_products := dependent_products_with node_cmp.
-Definition dependent_products_pinned := dependent_products_with node_cmp_pinned.
+Definition dependent_products := dependent_products_with true node_cmp.
+(* D15 as pinned: the layer sort that may raise *)
+Definition dependent_products_pinned := dependent_products_with true node_cmp_pinned.
+(* D16 as pinned: one version per name in the second walk, depths per name *)
+Definition dependent_products_byname_pinned := dependent_products_with false node_cmp.
 
 (* the graph handed to topologicalSort for [top] (observable for the correspondence check) *)
-Definition topo_graph (fuel : nat) (w : world) (top : node) : res graph :=
+Definition topo_graph_with (fx : bool) (fuel : nat) (w : world) (top : node) : res graph :=
   match walk_top fuel w [] top with
   | Err x => Err x
   | Ok (l, _) =>
-      let pins := map (fun x => (nname (enode x), nver (enode x))) (drop_top top l) in
-      match walk_top fuel w pins top with
+      match walk_top fuel w (pins_for fx top (drop_top top l)) top with
       | Err x => Err x
       | Ok (_, st) => Ok (prepare (pd st))
       end
   end.
+
+Definition topo_graph := topo_graph_with true.
+Definition topo_graph_byname_pinned := topo_graph_with false.
 
 (* ---------------------------------------------------------------- uses *)
 
@@ -542,14 +583,14 @@ Definition cuser (c : consumer) : str * str := fst c.
 Definition cprops (c : consumer) : option str * bool * nat := snd c.
 
 (* Eups.uses 3375-3387: the topological listing of every declared product *)
-Fixpoint listings_with (cmp : node -> node -> option comparison) (fuel : nat) (w : world)
+Fixpoint listings_with (fx : bool) (cmp : node -> node -> option comparison) (fuel : nat) (w : world)
          (ps : list (str * str)) : res (list ((str * str) * list entry)) :=
   match ps with
   | [] => Ok []
   | (n, v) :: r =>
-      match dependent_products_with cmp fuel w (n, Some v, true) true with
+      match dependent_products_with fx cmp fuel w (n, Some v, true) true with
       | Err x => Err x
-      | Ok l => match listings_with cmp fuel w r with
+      | Ok l => match listings_with fx cmp fuel w r with
                 | Err x => Err x
                 | Ok ls => Ok (((n, v), l) :: ls)
                 end
@@ -557,7 +598,7 @@ Fixpoint listings_with (cmp : node -> node -> option comparison) (fuel : nat) (w
   end.
 
 Definition uses_index (fuel : nat) (w : world) : res (list ((str * str) * list entry)) :=
-  listings_with node_cmp fuel w (map fst w).
+  listings_with true node_cmp fuel w (map fst w).
 
 (* the string key name:version of Uses._setup_by does not see the flavor *)
 Definition ukey := (str * option str)%type.
